@@ -12,6 +12,7 @@ import (
 	"context"
 	"fmt"
 	"io"
+	"regexp"
 	"sort"
 	"strings"
 	"sync"
@@ -115,7 +116,7 @@ func (o *Object) Call(r *Rec, paradigm string) {
 
 // Kinds lists the object kinds, simplest first. all adds the kinds that are too expensive for the quick tier.
 func Kinds(all bool) []string {
-	k := []string{"pregel-state-branch", "workflow-map", "nested", "nested-steplimit", "react", "react-rd", "react-shared-input", "host", "host-shared-opts", "dag-fanout"}
+	k := []string{"pregel-state-branch", "workflow-map", "nested", "nested-steplimit", "react", "react-rd", "react-shared-input", "host", "host-shared-opts", "dag-fanout", "interrupt-resume"}
 	if all {
 		k = append(k, "workflow-fanin")
 	}
@@ -161,12 +162,19 @@ func Build(kind string) (*Object, error) {
 		return buildHost()
 	case "host-shared-opts":
 		return buildHostSharedOpts()
+	case "interrupt-resume":
+		return buildInterrupt()
 	}
 	return nil, fmt.Errorf("unknown object kind %q", kind)
 }
 
 // ---------------------------------------------------------------------------------------------------
 // rendering (deterministic: never prints addresses)
+
+var addrRe = regexp.MustCompile(`0x[0-9a-f]+`)
+
+// noAddr blanks pointer values in a framework error text (the interrupt error prints its state pointer).
+func noAddr(s string) string { return addrRe.ReplaceAllString(s, "0xPTR") }
 
 func renderMsg(m *schema.Message) string {
 	if m == nil {
@@ -260,7 +268,7 @@ func Handler(owner *Rec) callbacks.Handler {
 			return ctx
 		}).
 		OnErrorFn(func(ctx context.Context, info *callbacks.RunInfo, err error) context.Context {
-			owner.addEvent("error:" + unitName(info) + ":" + err.Error())
+			owner.addEvent("error:" + unitName(info) + ":" + noAddr(err.Error()))
 			return ctx
 		}).
 		OnStartWithStreamInputFn(func(ctx context.Context, info *callbacks.RunInfo, in *schema.StreamReader[callbacks.CallbackInput]) context.Context {
